@@ -1,12 +1,12 @@
 \* C06/C20 quick: 4 base coins (2 accounts, 2 key scopes), <= 2 created transactions, <= 2 blocks,
-\* every backend answer class; outpoint lock on one coin; no leases / coinbase / PSBT funding here (random walks and thorough have them).
+\* every backend answer class; outpoint lock on one coin; no leases / coinbase (see thorough).
 CONSTANTS
   NBase = 4
   MaxSends = 2
   MaxTip = 2
   Mat = 2
   Answers = {"accepted", "inmempool", "rejected", "notifyfail1", "notifyfail2"}
-  Acts = {"Receive", "Mine", "Lock", "Send", "SendExplicit", "DryRun", "Restart", "RestartRej"}
+  Acts = {"Receive", "Mine", "Lock", "Send", "SendExplicit", "FundOwn", "DryRun", "Restart", "RestartRej"}
   LockCoins = {1}
   MaxHist = 40
   FullHist = FALSE
